@@ -5,6 +5,7 @@ import (
 	"go/constant"
 	"go/token"
 	"go/types"
+	"strings"
 
 	"golang.org/x/tools/go/ssa"
 
@@ -22,6 +23,7 @@ func init() {
 			"R3 old key retired: rotate.Key returns nil only after the old key was destroyed or the previous primary version was found empty (ESP, with the rules of C10). " +
 			"R4 profile: NotAfter is NotBefore plus exactly RootValidDays for a CA / self-issued template and SignValidDays otherwise, per branch on IsCA / Issuer == nil; where a producer sets KeyUsage, the CA arm has IsCA=true and CertSign|CRLSign and the other arm DigitalSignature. " +
 			"R5 default serial: the rotate command stores the default serial from sign/ops.NextSigningKeySerial, which returns parsed-subject-serial + the constant 1 of the primary signing certificate. " +
+			"R6 profile ownership: every store into a field of an x509.Certificate in production code writes an object allocated by the storing function (or by all callers of an unexported helper); a template returned by a producer is never adjusted afterwards. " +
 			"Not covered: serial arithmetic over histories, key-name uniqueness across wipeouts, wipeout completeness, which key can sign.",
 		Assumptions: []string{"go/types, go/ssa", "math/big", "crypto/x509 template semantics"},
 		Run:         runC12,
@@ -338,6 +340,50 @@ func runC12(c *Ctx) {
 		}
 	}
 
+	// ---------------- R6 profile ownership ----------------
+	// The certificate profile (validity, usages, serials, algorithm) is decided by the template producers. A store
+	// into a field of an x509.Certificate is allowed only on an object the storing function allocated itself (a
+	// literal or a copy being built); a template obtained from a producer (call result, interface result, field)
+	// is not adjusted afterwards.
+	nCertStores := 0
+	for _, f := range c.P.RepoFunctions() {
+		if c.isTestFunc(f) || strings.HasPrefix(load.RelPkg(f), "proto/") {
+			continue
+		}
+		for _, b := range f.Blocks {
+			for _, in := range b.Instrs {
+				st, ok := in.(*ssa.Store)
+				if !ok {
+					continue
+				}
+				// address chain down to the certificate object
+				var certObj ssa.Value
+				field := ""
+				addr := st.Addr
+				for i := 0; i < 8; i++ {
+					fa, ok := addr.(*ssa.FieldAddr)
+					if !ok {
+						break
+					}
+					if namedIs(fa.X.Type(), "crypto/x509", "Certificate") {
+						certObj, field = fa.X, flow.FieldName(fa)
+						break
+					}
+					addr = fa.X
+				}
+				if certObj == nil {
+					continue
+				}
+				nCertStores++
+				okRoot, why := certRootLocal(c, certObj, f, 0)
+				c.S.Check(okRoot, "R6", load.FuncName(f)+":writes Certificate."+field, c.pos(st.Pos()),
+					"the certificate object written is one this function allocates",
+					"field "+field+" of a certificate template is written outside the function that built the template ("+why+"): the profile the producers define (lifetime, usages, serial) is changed behind their back")
+			}
+		}
+	}
+	c.S.Floor("R6", "stores into x509.Certificate fields", 8, nCertStores)
+
 	// ---------------- R5 default serial ----------------
 	next := c.fn("R5", "sign/ops", "NextSigningKeySerial")
 	if next != nil {
@@ -462,4 +508,99 @@ func lifetimeDays(v ssa.Value, dayNs int64) int64 {
 		return -2
 	}
 	return -1
+}
+
+// certRootLocal: v (a *x509.Certificate or an addressable Certificate) is an allocation of fn, or a parameter of an
+// unexported fn all of whose static callers pass such an allocation.
+func certRootLocal(c *Ctx, v ssa.Value, fn *ssa.Function, depth int) (bool, string) {
+	switch x := v.(type) {
+	case *ssa.Alloc:
+		return true, ""
+	case *ssa.Phi:
+		for _, e := range x.Edges {
+			if ok, why := certRootLocal(c, e, fn, depth+1); !ok {
+				return false, why
+			}
+		}
+		return true, ""
+	case *ssa.UnOp:
+		// pointer loaded from a local cell holding a fresh allocation
+		if al, ok := x.X.(*ssa.Alloc); ok && x.Op == token.MUL {
+			for _, ref := range *al.Referrers() {
+				if st, ok := ref.(*ssa.Store); ok && st.Addr == al {
+					if ok, why := certRootLocal(c, st.Val, fn, depth+1); !ok {
+						return false, why
+					}
+				}
+			}
+			return true, ""
+		}
+		return false, "the object is loaded from " + flow.Describe(x.X)
+	case *ssa.Parameter:
+		if depth > 2 || (fn.Object() != nil && fn.Object().Exported() && fn.Parent() == nil) {
+			return false, "the object is parameter " + x.Name() + " of " + load.FuncName(fn)
+		}
+		idx := -1
+		for i, p := range fn.Params {
+			if p == x {
+				idx = i
+			}
+		}
+		n := c.P.CallGraph().Nodes[fn]
+		calls := 0
+		if n != nil {
+			for _, e := range n.In {
+				if e.Site == nil || e.Caller.Func == nil || e.Site.Common().IsInvoke() || idx < 0 || idx >= len(e.Site.Common().Args) {
+					continue
+				}
+				calls++
+				if ok, why := certRootLocal(c, e.Site.Common().Args[idx], e.Caller.Func, depth+1); !ok {
+					return false, why
+				}
+			}
+		}
+		if calls == 0 {
+			return false, "the object is parameter " + x.Name() + " of " + load.FuncName(fn)
+		}
+		return true, ""
+	case *ssa.Call:
+		if ok := freshResultOfSamePkgHelper(c, x, 0, fn, depth); ok {
+			return true, ""
+		}
+		return false, "the object is the result of " + callName(x)
+	case *ssa.Extract:
+		if call, ok := x.Tuple.(*ssa.Call); ok {
+			if ok := freshResultOfSamePkgHelper(c, call, x.Index, fn, depth); ok {
+				return true, ""
+			}
+			return false, "the object is a result of " + callName(call)
+		}
+	}
+	return false, "the object is " + flow.Describe(v)
+}
+
+// freshResultOfSamePkgHelper: the call statically invokes an unexported function or method of fn's own package
+// whose result #idx is, at every return, an object that function allocated: the caller is still "building" it.
+func freshResultOfSamePkgHelper(c *Ctx, call *ssa.Call, idx int, fn *ssa.Function, depth int) bool {
+	g := call.Call.StaticCallee()
+	if g == nil || g.Blocks == nil || g.Pkg != fn.Pkg || depth > 2 {
+		return false
+	}
+	if g.Object() != nil && g.Object().Exported() {
+		return false
+	}
+	for _, b := range g.Blocks {
+		ret, ok := b.Instrs[len(b.Instrs)-1].(*ssa.Return)
+		if !ok || idx >= len(ret.Results) {
+			continue
+		}
+		r := ret.Results[idx]
+		if k, isK := r.(*ssa.Const); isK && k.IsNil() {
+			continue
+		}
+		if ok, _ := certRootLocal(c, r, g, depth+1); !ok {
+			return false
+		}
+	}
+	return true
 }
